@@ -30,17 +30,17 @@ def budget_s(tier):
 
 LEVELS_QUICK = [
     (2, 1, KINDS_P, ("real",), ("plain",)),
-    (2, 2, KINDS_P, ("real", "cplx"), ("plain", "odd")),
+    (2, 2, KINDS_P, ("real", "cplx", "small", "eq"), ("plain", "odd")),
     (2, 3, KINDS_P, ("cplx",), ("plain",)),
-    (3, 2, KINDS_P, ("real", "cplx"), ("plain", "odd")),
+    (3, 2, KINDS_P, ("real", "cplx", "small", "eq"), ("plain", "odd")),
     (3, 3, ("Z", "V", "I", "LV", "open"), ("cplx",), ("plain", "odd")),
     (3, 4, ("Z", "V", "I"), ("real",), ("odd",)),
     (4, 3, ("Z", "V", "open"), ("real",), ("plain",)),
 ]
 LEVELS_THOROUGH = [
     (2, 1, KINDS_P, ("real", "cplx", "dec"), ("plain", "odd")),
-    (2, 2, KINDS_P, ("real", "cplx", "dec"), ("plain", "odd")),
-    (2, 3, KINDS_P, ("real", "cplx", "dec"), ("plain", "odd")),
+    (2, 2, KINDS_P, ("real", "cplx", "dec", "small", "eq"), ("plain", "odd")),
+    (2, 3, KINDS_P, ("real", "cplx", "dec", "small", "eq"), ("plain", "odd")),
     (3, 2, KINDS_P, ("real", "cplx", "dec"), ("plain", "odd")),
     (3, 3, KINDS_P, ("real", "cplx"), ("plain", "odd")),
     (3, 4, ("Z", "V", "I", "LV", "open"), ("cplx",), ("plain", "odd")),
